@@ -196,6 +196,68 @@ func ruleLastBlock(c *Ctx, rule string, targets [][2]string) {
 				}
 			}
 		}
+		// the emission may be a closure shared with the emissions inside the loop (flush := func() {...}): then the
+		// coordinates are cells captured by it, and the guard to look for compares loads of those cells
+		for _, b := range fn.Blocks {
+			if inLoop(b) {
+				continue
+			}
+			for _, ins := range b.Instrs {
+				call, ok := ins.(*ssa.Call)
+				if !ok {
+					continue
+				}
+				mc, ok := call.Call.Value.(*ssa.MakeClosure)
+				if !ok {
+					continue
+				}
+				an := mc.Fn.(*ssa.Function)
+				cells := map[ssa.Value]bool{}
+				for _, ab := range an.Blocks {
+					for _, ai := range ab.Instrs {
+						al, ok := ai.(*ssa.Alloc)
+						if !ok || !strings.HasSuffix(typeString(al.Type()), "featPair") {
+							continue
+						}
+						for _, ai2 := range ab.Instrs {
+							st, ok := ai2.(*ssa.Store)
+							if !ok || addrRoot(st.Addr) != ssa.Value(al) {
+								continue
+							}
+							fa, ok := st.Addr.(*ssa.FieldAddr)
+							if !ok {
+								continue
+							}
+							if _, nested := fa.X.(*ssa.FieldAddr); !nested {
+								continue
+							}
+							if ld, ok := st.Val.(*ssa.UnOp); ok && ld.Op == token.MUL {
+								if fv, ok := ld.X.(*ssa.FreeVar); ok {
+									for i, f := range an.FreeVars {
+										if f == fv {
+											cells[mc.Bindings[i]] = true
+										}
+									}
+								}
+							}
+						}
+					}
+				}
+				if len(cells) < 4 {
+					continue
+				}
+				n++
+				cellOf := func(v ssa.Value) bool {
+					ld, ok := v.(*ssa.UnOp)
+					return ok && ld.Op == token.MUL && cells[ld.X]
+				}
+				for _, bf := range branchesAt(b) {
+					if cellOf(bf.cond.X) && cellOf(bf.cond.Y) {
+						bad = bf.cond
+					}
+				}
+			}
+		}
 		switch {
 		case n == 0:
 			c.und(rule, key, fn.Pos(), "the emission of the last traced block was not found after the traceback loop")
